@@ -1382,6 +1382,8 @@ func (client *client) pollInflights() (cont bool, err error) {
 			client.pl.markUsedLocked(id)
 			client.write(gmqtt.MessageToPublish(m.Message, client.version))
 		case *queue.Pubrel:
+			// the packet id is still in use until the PUBCOMP is received.
+			client.pl.markUsedLocked(id)
 			client.write(&packets.Pubrel{PacketID: id})
 		}
 	}
